@@ -5,7 +5,7 @@ use checks::api::{Int, SInt, UInt, Val};
 use checks::common::cast_sources;
 use checks::sub_table_types;
 use proptest::prelude::*;
-use vlib::gen::{self, Digit};
+use vlib::gen::{self, Digit, Shape};
 use vlib::runner::{self, outcome, Job, Obs, Outcome, Property};
 use vlib::{ck, Pat, Z};
 
@@ -194,8 +194,51 @@ fn digits_api<U: UInt>(jobs: &mut Vec<Job>) {
     }));
 }
 
+/// sibling entry points of the checked conversions: num_traits::ToPrimitive / FromPrimitive (anchored by C19)
+fn nt_conv<T: Int>(c: &(Pat, Pat), obs: &mut Obs) -> Result<(), String> {
+    let a = T::load(&c.0 .0);
+    let z = a.z();
+    obs.nt();
+    let bounds: [(u64, bool); 12] = [(8, false), (16, false), (32, false), (64, false), (128, false), (usize::BITS as u64, false), (8, true), (16, true), (32, true), (64, true), (128, true), (isize::BITS as u64, true)];
+    let expect: Vec<Option<Z>> = bounds.iter().map(|&(b, s)| if z.fits(b, s) { Some(z.clone()) } else { None }).collect();
+    ck!("ToPrimitive::to_{u8..u128, usize, i8..i128, isize}", outcome(|| a.nt_to_ints()), Outcome::Returned(expect));
+    let src = &c.1 .0;
+    let v128 = u128::from_le_bytes(src[..16].try_into().unwrap());
+    let w = T::W as u64;
+    let some = |z: Z| if z.fits(w, T::SIGNED) { Some(Pat(z.to_le_wrapped((T::W / 8) as usize))) } else { None };
+    ck!("FromPrimitive::from_u128", outcome(|| T::nt_from_u128(v128).map(|v| Pat(v.store()))), Outcome::Returned(some(Z::from_u128(v128))));
+    ck!("FromPrimitive::from_i128", outcome(|| T::nt_from_i128(v128 as i128).map(|v| Pat(v.store()))), Outcome::Returned(some(Z::from_i128(v128 as i128))));
+    ck!("FromPrimitive::from_u64", outcome(|| T::nt_from_u64(v128 as u64).map(|v| Pat(v.store()))), Outcome::Returned(some(Z::from_u128(v128 as u64 as u128))));
+    ck!("FromPrimitive::from_i64", outcome(|| T::nt_from_i64(v128 as i64).map(|v| Pat(v.store()))), Outcome::Returned(some(Z::from_i128(v128 as i64 as i128))));
+    Ok(())
+}
+
+fn nt_conv_cases(sh: Shape) -> BoxedStrategy<(Pat, Pat)> {
+    // value: structured, or a small-magnitude value near a primitive bound; source: 16 bytes with sign / width structure
+    let near = (prop_oneof![Just(7u64), Just(8), Just(15), Just(16), Just(31), Just(32), Just(63), Just(64), Just(127), Just(128)], -2i64..=2, any::<bool>()).prop_map(move |(k, e, neg)| {
+        let z = Z::pow2(k).add_i(e);
+        Pat((if neg { z.neg() } else { z }).to_le_wrapped(sh.bytes))
+    });
+    let src = prop_oneof![
+        3 => proptest::collection::vec(any::<u8>(), 16),
+        2 => (0usize..=16, any::<u8>(), any::<bool>()).prop_map(|(k, b, ones)| (0..16).map(|i| if i + 1 == k { b } else if i < k { 0xff } else if ones { 0xff } else { 0 }).collect::<Vec<u8>>()),
+    ]
+    .prop_map(Pat);
+    (prop_oneof![3 => gen::pattern(sh), 3 => near, 1 => gen::boundary(sh)], src).boxed()
+}
+
 fn main() {
     let mut jobs: Vec<Job> = Vec::new();
+    macro_rules! sib {
+        ($U:ty, $I:ty) => {
+            jobs.push(Job::new(checks::common::job_name::<$U>("siblings"), move |ctx| {
+                let sh = <$U as Int>::shape();
+                ctx.run("numtraits_u", ctx.budget(200, FACTOR), nt_conv_cases(sh), nt_conv::<$U>);
+                ctx.run("numtraits_i", ctx.budget(200, FACTOR), nt_conv_cases(sh), nt_conv::<$I>);
+            }));
+        };
+    }
+    checks::for_all_cfgs!(sib);
 
     // BTryFrom for every ordered pair of the 32 sub-table types
     macro_rules! bb {
@@ -236,7 +279,7 @@ fn main() {
     runner::main(
         Property {
             id: "C13",
-            rule: "(source type, target type) pairs: TryFrom<bnum> for each of the 12 primitives from all 32 sub-table types and four 320..8192-bit types; BTryFrom for all 1024 ordered pairs of the sub-table types (all digit types, U->U, I->U, U->I, I->I) plus 8 pairs with 320..8192-bit types; From/TryFrom from every primitive, bool and char into every one of the 86 types that is at least as wide as the source; from_digits/digits()/From<[digit;N]>/Into<[digit;N]>/from_digit on all 43 configurations. Source values: structured source patterns; target-shaped values shifted by k*2^Wt (low part fits but padding digits are not pure zero/sign fill); target MAX, MAX+1, MIN, MIN-1, 0, -1 embedded in the source. Oracle: the reference value fits the target <=> Ok, and the Ok value is equal; never panics. For the infallible From<unsigned> into a signed target of the same width only representable inputs are asserted (no Err channel exists), as the property states. NON-TRIVIAL: value within 2 of a target bound, or source wider than target, or negative source. distinct = distinct (profile, job, inputs) by 64-bit hash.",
+            rule: "(source type, target type) pairs: TryFrom<bnum> for each of the 12 primitives from all 32 sub-table types and four 320..8192-bit types; BTryFrom for all 1024 ordered pairs of the sub-table types (all digit types, U->U, I->U, U->I, I->I) plus 8 pairs with 320..8192-bit types; From/TryFrom from every primitive, bool and char into every one of the 86 types that is at least as wide as the source; from_digits/digits()/From<[digit;N]>/Into<[digit;N]>/from_digit on all 43 configurations. Source values: structured source patterns; target-shaped values shifted by k*2^Wt (low part fits but padding digits are not pure zero/sign fill); target MAX, MAX+1, MIN, MIN-1, 0, -1 embedded in the source. Oracle: the reference value fits the target <=> Ok, and the Ok value is equal; never panics. For the infallible From<unsigned> into a signed target of the same width only representable inputs are asserted (no Err channel exists), as the property states. NON-TRIVIAL: value within 2 of a target bound, or source wider than target, or negative source. distinct = distinct (profile, job, inputs) by 64-bit hash. SIBLINGS job (per configuration): num_traits::ToPrimitive::to_* (all twelve integer targets) and FromPrimitive::from_{u64, i64, u128, i128} return Some exactly for representable values (the entry points C19 anchors).",
             assumptions: &[
                 "digits()/from_digits()/to_bits()/from_bits() are the trusted observation channel (their trivial contract is itself checked in the digits_api jobs)",
                 "From from a primitive wider than the target is outside the property (README known issue)",
